@@ -313,6 +313,14 @@ func genHist(g *GenCtx, nQuick, nThorough int) {
 			ag = 1
 		}
 		g.Op("new %d %d", ak, ag)
+		if r.Chance(1, 3) {
+			// the server account's own file lists every key of the pool
+			var all []byte
+			for _, k := range p.keys {
+				all = append(all, []byte(entry(k)+"\n")...)
+			}
+			g.Op("srvfile %s", HexOrDash(all))
+		}
 		setFile := func(u string) {
 			switch x := r.Intn(20); {
 			case x == 0:
@@ -660,6 +668,18 @@ func runWith(in *bufio.Scanner, out *bufio.Writer, session bool) {
 				w.fsys[p] = &fstest.MapFile{Data: d, Mode: 0600}
 				res = "ok"
 			}
+		case len(f) == 2 && f[0] == "srvfile":
+			// the authorized_keys file of the account the SERVER runs as (config.UserDirectory()): it
+			// authorizes nobody but that account - in particular not a user name without an account
+			d, ok := Unhex(f[1])
+			if !ok {
+				break
+			}
+			p := core.AuthorizedKeysPath(config.UserDirectory())
+			if len(p) > 1 {
+				w.fsys[p[1:]] = &fstest.MapFile{Data: d, Mode: 0600}
+			}
+			res = "ok"
 		case len(f) == 3 && f[0] == "authkey":
 			u, ok := Unhex(f[1])
 			k, ok2 := key32(f[2])
